@@ -11,7 +11,9 @@ mod packet;
 mod proj;
 mod rdata;
 mod reparse;
+mod txt;
 mod util;
+mod values;
 
 #[global_allocator]
 static GLOBAL: util::Meter = util::Meter;
@@ -28,6 +30,8 @@ fn main() {
         "packet" => packet::run(&a),
         "edns" => edns::run(&a),
         "reparse" => reparse::run(&a),
+        "txt" => txt::run(&a),
+        "values" => values::run(&a),
         "compress" => compress::run(&a),
         "sinks" => compress::run_sinks(&a),
         "inspect" => inspect::run(&a),
